@@ -222,10 +222,13 @@ fn crypto_sign_ed25519_verify_detached_impl(
     public_key: &PublicKey,
     prehashed: bool,
 ) -> Result<(), Error> {
-    let s = Scalar::from_bytes_mod_order(
+    // S must be canonical (S < L): accepting S + kL would make signatures
+    // malleable
+    let s = Option::<Scalar>::from(Scalar::from_canonical_bytes(
         *<&[u8; CRYPTO_SCALARMULT_CURVE25519_SCALARBYTES]>::try_from(&signature[32..])
             .map_err(|_| dryoc_error!("bad signature"))?,
-    );
+    ))
+    .ok_or_else(|| dryoc_error!("bad signature"))?;
     let big_r = CompressedEdwardsY::from_slice(&signature[..32])?
         .decompress()
         .ok_or_else(|| dryoc_error!("bad signature"))?;
